@@ -56,5 +56,16 @@ func C01_frame_io() {
 		vAssert(vEqBytes(g.Payload, payload), "io.read.payload")
 	}
 	vAssert(src.pos == hs+L, "io.read.consumed")
+	// ... and never fewer: the same bytes with the last 1, 2 or all payload bytes missing are not
+	// a frame (a Frame whose payload is shorter than its Length must not come back as a success)
+	if L > 0 {
+		miss := []int{1, 2, L}[vChoose("missing", 3)]
+		if miss <= L {
+			short := &vSrc{data: append([]byte{}, w.b[:hs+L-miss]...), name: "chunk2", whole: true}
+			g2, err2 := ReadFrame(short)
+			vAssert(vOr(err2 != nil, int64(len(g2.Payload)) == g2.Header.Length), "io.read.success_means_length_payload_bytes")
+			vAssert(err2 != nil, "io.read.short_stream_is_error")
+		}
+	}
 	vTrace("total", uint64(len(w.b)))
 }
